@@ -2311,6 +2311,17 @@ func (r *RIBHolder) GetRIB(filter map[spb.AFTType]bool, msgCh chan *spb.GetRespo
 	r.mu.RLock()
 	defer r.mu.RUnlock()
 
+	// send writes m to msgCh, giving up if the caller signals that it has stopped
+	// reading - since otherwise the lock on the RIB would be held forever.
+	send := func(m *spb.GetResponse) bool {
+		select {
+		case msgCh <- m:
+			return true
+		case <-stopCh:
+			return false
+		}
+	}
+
 	// rewrite ALL to the values that we support.
 	if filter[spb.AFTType_ALL] {
 		filter = map[spb.AFTType]bool{
@@ -2332,13 +2343,15 @@ func (r *RIBHolder) GetRIB(filter map[spb.AFTType]bool, msgCh chan *spb.GetRespo
 				if err != nil {
 					return status.Errorf(codes.Internal, "cannot marshal IPv4Entry for %s into GetResponse, %v", pfx, err)
 				}
-				msgCh <- &spb.GetResponse{
+				if !send(&spb.GetResponse{
 					Entry: []*spb.AFTEntry{{
 						NetworkInstance: r.name,
 						Entry: &spb.AFTEntry_Ipv4{
 							Ipv4: p,
 						},
 					}},
+				}) {
+					return nil
 				}
 			}
 		}
@@ -2354,13 +2367,15 @@ func (r *RIBHolder) GetRIB(filter map[spb.AFTType]bool, msgCh chan *spb.GetRespo
 				if err != nil {
 					return status.Errorf(codes.Internal, "cannot marshal IPv6Entry for %s into GetResponse, %v", pfx, err)
 				}
-				msgCh <- &spb.GetResponse{
+				if !send(&spb.GetResponse{
 					Entry: []*spb.AFTEntry{{
 						NetworkInstance: r.name,
 						Entry: &spb.AFTEntry_Ipv6{
 							Ipv6: p,
 						},
 					}},
+				}) {
+					return nil
 				}
 			}
 		}
@@ -2376,13 +2391,15 @@ func (r *RIBHolder) GetRIB(filter map[spb.AFTType]bool, msgCh chan *spb.GetRespo
 				if err != nil {
 					return status.Errorf(codes.Internal, "cannot marshal MPLS entry for label %d into GetResponse, %v", lbl, err)
 				}
-				msgCh <- &spb.GetResponse{
+				if !send(&spb.GetResponse{
 					Entry: []*spb.AFTEntry{{
 						NetworkInstance: r.name,
 						Entry: &spb.AFTEntry_Mpls{
 							Mpls: p,
 						},
 					}},
+				}) {
+					return nil
 				}
 			}
 		}
@@ -2398,13 +2415,15 @@ func (r *RIBHolder) GetRIB(filter map[spb.AFTType]bool, msgCh chan *spb.GetRespo
 				if err != nil {
 					return status.Errorf(codes.Internal, "cannot marshal NextHopGroupEntry for index %d into GetResponse, %v", index, err)
 				}
-				msgCh <- &spb.GetResponse{
+				if !send(&spb.GetResponse{
 					Entry: []*spb.AFTEntry{{
 						NetworkInstance: r.name,
 						Entry: &spb.AFTEntry_NextHopGroup{
 							NextHopGroup: p,
 						},
 					}},
+				}) {
+					return nil
 				}
 			}
 		}
@@ -2420,13 +2439,15 @@ func (r *RIBHolder) GetRIB(filter map[spb.AFTType]bool, msgCh chan *spb.GetRespo
 				if err != nil {
 					return status.Errorf(codes.Internal, "cannot marshal NextHopEntry for ID %d into GetResponse, %v", id, err)
 				}
-				msgCh <- &spb.GetResponse{
+				if !send(&spb.GetResponse{
 					Entry: []*spb.AFTEntry{{
 						NetworkInstance: r.name,
 						Entry: &spb.AFTEntry_NextHop{
 							NextHop: p,
 						},
 					}},
+				}) {
+					return nil
 				}
 			}
 		}
